@@ -218,13 +218,16 @@ impl<'a, 'b> Generator<'a, 'b> {
                     write!(self.out, "while true do");
                     depth += 1;
                 }
+                // NOTE: Lua only allows `break` and `return` as the last statement of a
+                // block, so they are wrapped in a block of their own.
                 IR::Break => {
-                    write!(self.out, "break");
+                    write!(self.out, "do break end");
                 }
                 IR::Return(t) => {
-                    write!(self.out, "return ");
+                    write!(self.out, "do return ");
                     let t = self.expand(t).to_string();
                     write!(self.out, "{}", t);
+                    write!(self.out, " end");
                 }
                 IR::HaltAndCatchFire(msg) => {
                     write!(self.out, "__CRASH(\"{}\")()", msg);
